@@ -34,10 +34,21 @@ TrimC(s) == LTrimC(RTrimC(s))
 
 \* ------------------------------------------------------------------ P: style markup aside
 \* length of the tag-shaped piece starting at s[j] (0: none)
+\* the style names of clikit's default style set and of pastel; a tag is a STYLE tag when its name is one of them or a
+\* style definition (fg=..., bg=..., options=...), with or without the closing slash; "</>" closes whatever is open
+StyleNames == {<<"b">>, <<"u">>, <<"c", "1">>, <<"c", "2">>, <<"i", "n", "f", "o">>, <<"e", "r", "r", "o", "r">>,
+               <<"c", "o", "m", "m", "e", "n", "t">>, <<"q", "u", "e", "s", "t", "i", "o", "n">>}
+IsStyleName(n) == n = <<>> \/ n \in StyleNames \/ \E k \in 1..Len(n) : n[k] = "="
+\* length of the STYLE tag starting at s[j] (0: none).  Angle-bracket text that is no style - List<int>, <module>,
+\* <nonexistent> - is text and must be shown
 TagLen(s, j) ==
   IF s[j] # "<" THEN 0
   ELSE LET ends == {k \in (j + 1)..Len(s) : s[k] = ">" /\ \A i \in (j + 1)..(k - 1) : s[i] \notin {"<", ">", Blank}}
-       IN IF ends = {} THEN 0 ELSE Min(ends) - j + 1
+       IN IF ends = {} THEN 0
+          ELSE LET e == Min(ends)
+                   inner == SubSeq(s, j + 1, e - 1)
+                   name == IF inner # <<>> /\ inner[1] = "/" THEN SubSeq(inner, 2, Len(inner)) ELSE inner
+               IN IF (inner # <<>> /\ IsStyleName(name)) THEN e - j + 1 ELSE 0
 
 \* cells that can only be matched literally; a run of them is consumed in one go (keeps the recursion shallow)
 PlainAt(msg, j) == msg[j] \notin {"<", "\\", Blank}
